@@ -188,6 +188,21 @@ theorem cnt_err (l : List Term) (e : Failure)
   repeat' (split at h)
   all_goals first | (cases h; rfl) | cases h
 
+theorem nnr_liftResults (rec : Rec) (x : Except Failure (List Result))
+    (h : ∀ e, x = .error e → ∀ cls, e = .raw cls → cls ∈ rawAllowed) : NoNewRaw rec (liftResults x) := by
+  unfold liftResults
+  cases x with
+  | error e => exact nnr_err rec e (h e rfl)
+  | ok rs => exact nnr_ofResults rec rs
+
+theorem nnr_pattern (rec : Rec) (s : Shape) (fv : FV) (rx : Regex) (ps : List Term) (flags : String) :
+    NoNewRaw rec (liftResults (evalPattern s fv rx ps flags)) :=
+  nnr_liftResults rec _ (fun e he cls hc => by rw [evalPattern_err _ _ _ _ _ _ he] at hc; cases hc; decide)
+
+theorem nnr_lessThan (rec : Rec) (s : Shape) (k : CKind) (dg : Graph) (fv : FV) (props : List Term) (test : Int → Bool) :
+    NoNewRaw rec (liftResults (evalLessThan s k dg fv props test)) :=
+  nnr_liftResults rec _ (fun e he cls hc => by rw [evalLessThan_err _ _ _ _ _ _ _ he] at hc; cases hc)
+
 /-- **Core components**: a raw exception out of a constraint component is one of `rawAllowed` or was raised by a
     nested shape evaluation — for every component except sh:expression (advanced mode has its own list) -/
 theorem nnr_evalConstraint (e : Env) (rec : Rec) (s : Shape) (k : CKind) (fv : FV) (path : List PathEntry)
@@ -210,6 +225,8 @@ theorem nnr_evalConstraint (e : Env) (rec : Rec) (s : Shape) (k : CKind) (fv : F
       | exact nnr_nodeOver rec _ _ _ _
       | exact nnr_propertyOver rec _ _ _
       | exact nnr_qualifiedOver rec _ _ _ _ _ _ _ _
+      | exact nnr_pattern rec _ _ _ _ _
+      | exact nnr_lessThan rec _ _ _ _ _ _
       | (apply nnr_foldOut; intro _)
       | split
   all_goals first
